@@ -95,12 +95,21 @@ def _patterns(bs, maxlen, rng):
 
 def generate(tier, rng):
   if tier == 'quick':
-    maxlen, nrand, nmis, shuf_n, nsb = 3, 250, 160, 9, 150
+    maxlen, nrand, nmis, shuf_n, nsb = 3, 250, 160, 11, 150
   elif tier == 'search':
     maxlen, nrand, nmis, shuf_n, nsb = 4, 1500, 600, 14, 600
   else:
-    maxlen, nrand, nmis, shuf_n, nsb = 4, 1200, 500, 12, 500
+    maxlen, nrand, nmis, shuf_n, nsb = 4, 1200, 500, 16, 500
   i = 0
+  # -- exhaustive grid: total rows N x batch size x buckets (x three ways of splitting N over clients):
+  #    number of batches and size of the last one; one case per (bs, buckets, split), all N inside
+  gb, gn = (10, 40) if tier == 'quick' else (16, 70)
+  for bs in range(1, gb + 1):
+    for nb in range(1, 7):
+      for split in range(3):
+        if tier == 'quick' and (bs + nb + split) % 2:
+          continue
+        yield {'kind': 'padgrid', 'bs': bs, 'nb': nb, 'split': split, 'maxn': gn}
   # -- padded_batch_client_datasets: exhaustive size-class patterns
   for bs in range(1, 6):
     for nbi, sizes in enumerate(_patterns(bs, maxlen, rng)):
@@ -108,7 +117,7 @@ def generate(tier, rng):
       for nb in nbs:
         i += 1
         yield {'kind': 'padded', 'bs': bs, 'nb': nb, 'aff': list(AFFS[i % 3]), 'ds': [[0, 0, s] for s in sizes],
-               'it': i % 5, 'kw': (i // 2) % 3}
+               'it': i % 5, 'kw': (i // 2) % 3, 'layout': (i % 7) if i % 3 == 0 else 0}
   # -- longer random sequences, larger batch sizes
   for _ in range(nrand):
     bs = rng.choice([1, 2, 3, 4, 5, 7, 8, 16])
@@ -168,7 +177,7 @@ def generate(tier, rng):
     tot = sum(sizes)
     yield {'kind': 'shufbatch', 'bs': bs, 'B': rng.choice([1, 2, 3, max(1, tot // 2), max(1, tot - 1), max(1, tot), tot + 1, tot + 7]),
            'seed': rng.choice([0, 1, 2 ** 32 - 1] + [rng.randrange(1 << 30)] * 5), 'aff': list(rng.choice(AFFS)),
-           'ds': [[0, 0, s] for s in sizes], 'it': rng.randrange(5), 'pos': rng.randrange(2)}
+           'ds': [[0, 0, s] for s in sizes], 'it': rng.randrange(5), 'pos': rng.randrange(2), 'layout': rng.randrange(6)}
   # -- RepeatableIterator
   for base in range(10):
     for n in range(0, 5):
@@ -219,6 +228,18 @@ def generate(tier, rng):
                'epochs': rng.randrange(1, 4), 'impl': IMPLS[j % 3], 'idtype': ['bytes', 'str'][j % 2]})
   for c in sc:
     yield c
+  # -- "reproducibly for a fixed seed" across interpreter processes (another PYTHONHASHSEED)
+  for env in ([{'PYTHONHASHSEED': '777'}] if tier == 'quick' else [{'PYTHONHASHSEED': '777'}, {'PYTHONHASHSEED': 'random'}]):
+    yield {'kind': 'xproc', 'env': env, 'cases': [
+        {'kind': 'shuffle', 'n': 9, 'B': 4, 'seed': 0, 'src': 5},
+        {'kind': 'shuffle', 'n': 7, 'B': 3, 'seed': 12345, 'src': 2},
+        {'kind': 'shufbatch', 'bs': 2, 'B': 3, 'seed': 0, 'aff': [2, 1], 'ds': [[0, 0, 3], [0, 0, 0], [0, 0, 4]], 'it': 1, 'pos': 1},
+        {'kind': 'shufbatch', 'bs': 3, 'B': 50, 'seed': 7, 'aff': [1, 0], 'ds': [[0, 0, 2], [1, 0, 2]], 'it': 0, 'pos': 0},
+        {'kind': 'shufclients', 'nc': 6, 'B': 3, 'seed': 0, 'epochs': 2, 'impl': 'mem', 'idtype': 'str'},
+        {'kind': 'shufclients', 'nc': 5, 'B': 7, 'seed': 1, 'epochs': 2, 'impl': 'subset', 'idtype': 'bytes'},
+        {'kind': 'shufclients', 'nc': 4, 'B': 2, 'seed': 2 ** 32 - 1, 'epochs': 2, 'impl': 'sqlite', 'idtype': 'bytes'},
+        {'kind': 'srbfd', 'sizes': [2, 0, 3, 1], 'bs': 2, 'cB': 2, 'eB': 3, 'seed': 0, 'take': 5, 'impl': 'mem'},
+        {'kind': 'padded', 'bs': 3, 'nb': 2, 'aff': [3, 2], 'ds': [[0, 0, 4], [0, 0, 0], [0, 1, 2]], 'it': 1, 'kw': 0}]}
 
 
 # --------------------------------------------------------------------------
@@ -281,12 +302,47 @@ def _preprocessors(aff):
   return get
 
 
+def _relayout(ex, how):
+  """The same values in another memory layout: 1 Fortran order / every-other-row slice of a larger array,
+  2 negative strides / non-contiguous column slice of a wider array, 3 read-only, 4 byte-swapped dtype."""
+  if not how:
+    return ex
+  out = {}
+  for k, v in ex.items():
+    if v.dtype == object:
+      out[k] = v
+      continue
+    if how == 1:
+      if v.ndim > 1:
+        w = np.asfortranarray(v)
+      else:
+        big = np.zeros((2 * len(v),) + v.shape[1:], v.dtype)
+        big[::2] = v
+        w = big[::2]
+    elif how == 2:
+      if v.ndim > 1:
+        wide = np.zeros((v.shape[0], v.shape[1] + 2), v.dtype)
+        wide[:, 1:-1] = v
+        w = wide[:, 1:-1]
+      else:
+        w = np.ascontiguousarray(v[::-1])[::-1]
+    elif how == 3:
+      w = v.copy()
+      w.setflags(write=False)
+    else:
+      w = v.astype(v.dtype.newbyteorder('S')) if v.dtype.kind in 'iufc' and v.dtype.itemsize > 1 else v
+    assert w.shape == v.shape and (len(v) == 0 or np.array_equal(w, v, equal_nan=v.dtype.kind in 'fc'))
+    out[k] = w
+  return out
+
+
 def _datasets(case):
   import fedjax
   get = _preprocessors(case['aff'])
   out, base = [], 0
   for j, (p, f, n) in enumerate(case['ds']):
-    out.append(fedjax.ClientDataset(_examples(base, n, f, j % 2 == 1), get(p)))
+    lay = (case.get('layout', 0) + j) % 5 if case.get('layout') else 0
+    out.append(fedjax.ClientDataset(_relayout(_examples(base, n, f, j % 2 == 1), lay), get(p)))
     base += n
   return out
 
@@ -356,7 +412,8 @@ def _eq(a, b):
 
 
 def _snap_datasets(dsl):
-  return [[(k, v.copy()) for k, v in d.raw_examples.items()] for d in dsl]
+  # (value copy, the array object itself): values, dtype, strides, flags and identity must survive the call
+  return [[(k, (v.copy(order='K'), v, v.strides, v.flags.writeable)) for k, v in d.raw_examples.items()] for d in dsl]
 
 
 def _datasets_unchanged(dsl, snap):
@@ -365,9 +422,10 @@ def _datasets_unchanged(dsl, snap):
   for d, sn in zip(dsl, snap):
     if list(d.raw_examples) != [k for k, _ in sn]:
       return False
-    for k, v in sn:
+    for k, (val, obj, strides, writeable) in sn:
       cur = d.raw_examples[k]
-      if not _eq(cur, v):
+      if cur is not obj or cur.strides != strides or cur.flags.writeable != writeable or cur.dtype != val.dtype \
+          or cur.shape != val.shape or not np.array_equal(cur, val, equal_nan=val.dtype.kind in 'fc'):
         return False
   return True
 
@@ -391,7 +449,7 @@ def _v_follows(b, aff, mask):
   a, c = aff
   x = np.asarray(b['x'])
   n = len(x)
-  if x.dtype != np.int32:
+  if x.dtype.newbyteorder('=') != np.dtype(np.int32):
     return False
   real = np.ones(n, bool) if mask is None else np.asarray(mask, bool)
   if real.shape != (n,):
@@ -417,7 +475,7 @@ def _v_follows(b, aff, mask):
     return False
   for k, e in exp.items():
     col = np.asarray(b[k])
-    if col.dtype != want_dt[k] or col.shape != np.asarray(e).shape:
+    if col.dtype.newbyteorder('=') != np.dtype(want_dt[k]) or col.shape != np.asarray(e).shape:
       return False
     if k == 'obj':
       for j in range(n):
@@ -429,7 +487,7 @@ def _v_follows(b, aff, mask):
     if not np.array_equal(col[real], np.asarray(e)[real], equal_nan=(k == 'nf')):
       return False
     pad = col[~real]
-    zero = np.zeros(pad.shape, col.dtype)
+    zero = np.zeros(pad.shape, col.dtype.newbyteorder('='))
     if pad.size and not np.array_equal(pad, zero):
       return False
   return True
@@ -493,11 +551,52 @@ def _run_padded(case, dsl):
           'inputs_ok': _datasets_unchanged(dsl, snap), 'pulled': pulled}
 
 
+def _run_xproc(case):
+  """The embedded cases here and in another interpreter process (other PYTHONHASHSEED)."""
+  import json
+  import os
+  import subprocess
+  import sys
+  env = dict(os.environ)
+  env.update(case['env'])
+  p = subprocess.run([sys.executable, '-m', 'harness.c15'], input=json.dumps(case['cases']), capture_output=True,
+                     text=True, env=env, timeout=80)
+  if p.returncode != 0:
+    return {'sub_error': (p.stderr or '')[-400:], 'subs': [], 'here': []}
+  return {'sub_error': None, 'subs': json.loads(p.stdout.strip().split('\n')[-1]), 'here': [run(c) for c in case['cases']]}
+
+
+def _sub_main():
+  import json
+  import sys
+  print(json.dumps([run(c) for c in json.loads(sys.stdin.read())]))
+
+
+def _grid_sizes(split, n):
+  return [[n], [n // 3, n - n // 3], [n // 2, 0, n - n // 2]][split]
+
+
 def run(case):
   import fedjax
   from fedjax.core import client_datasets as cd
   from fedjax.core import federated_data as fdm
   kind = case['kind']
+  if kind == 'xproc':
+    return _run_xproc(case)
+  if kind == 'padgrid':
+    counts = []
+    for n in range(case['maxn'] + 1):
+      dsl, base = [], 0
+      for sz in _grid_sizes(case['split'], n):
+        dsl.append(fedjax.ClientDataset({'x': np.arange(base + 1, base + sz + 1, dtype=np.int32)}))
+        base += sz
+      k, last, real = 0, 0, 0
+      for b in fedjax.padded_batch_client_datasets(dsl, batch_size=case['bs'], num_batch_size_buckets=case['nb']):
+        k += 1
+        last = len(b['x'])
+        real += int(np.sum(b[M]))
+      counts.append([k, last, real])
+    return {'counts': counts}
   if kind == 'padded':
     return _run_padded(case, _datasets(case))
   if kind == 'pbfd':
@@ -540,9 +639,11 @@ def run(case):
               lambda: iter(list(range(n))), lambda: {k: None for k in range(n)}.keys(),
               lambda: [k // 2 for k in range(n)], lambda: (7 for _ in range(n))][case['src']]()
     rng = RecRng(case['seed'])
-    out, err = _drain(cd.buffered_shuffle(source(), case['B'], rng), int)
+    src_obj = source()
+    out, err = _drain(cd.buffered_shuffle(src_obj, case['B'], rng), int)
     rng2 = np.random.RandomState(case['seed'])
-    out2, _ = _drain(cd.buffered_shuffle(source(), case['B'], rng2), int)
+    # second call: the SAME source object when it is a re-iterable (Sized) one, a fresh one otherwise
+    out2, _ = _drain(cd.buffered_shuffle(src_obj if hasattr(src_obj, '__len__') else source(), case['B'], rng2), int)
     return {'out': out, 'err': err, 'codes': rng.codes, 'draws': rng.draws, 'contract': rng.contract, 'same': out == out2}
   if kind == 'shuffle_seeds':
     outs = []
@@ -791,6 +892,34 @@ def _oracle_padded(sizes, consistent, bs, nb, aff, obs, tag, first_bad=None):
 def oracle(case, obs):
   kind = case['kind']
   out = []
+  if kind == 'xproc':
+    if obs['sub_error'] is not None:
+      return [('xproc-subprocess', f'the cases failed in a subprocess with {case["env"]}: {obs["sub_error"][-200:]}')]
+    for c, so, ho in zip(case['cases'], obs['subs'], obs['here']):
+      out += [(k, f'in a process with {case["env"]}: {m}') for k, m in oracle(c, so)]
+      for key in ('out', 'batches', 'stream', 'err', 'trace'):
+        if so.get(key) != ho.get(key):
+          out.append(('process-dependent', f'{c["kind"]}: `{key}` differs between two interpreter processes ({case["env"]}) for the same seed'))
+    return out
+  if kind == 'padgrid':
+    bs, nb = case['bs'], case['nb']
+    for n, (k, last, real) in enumerate(obs['counts']):
+      sizes = _grid_sizes(case['split'], n)
+      rem = n % bs
+      # exact integer arithmetic: ceil(n / bs) batches (+ one all-padding batch when the carry buffer holds
+      # only empty pieces at the end), the last one of the bucket-rule size
+      want_k = -(-n // bs)
+      trailing_empty = (n == 0 and len(sizes) >= 1)
+      want_last = _minimal_bucket(rem if rem else (bs if n else 0), bs, nb) if n else bs
+      if real != n:
+        out.append(('padded-grid-rows', f'N={n} bs={bs} buckets={nb} sizes={sizes}: {real} real rows'))
+      if k != want_k + (1 if trailing_empty else 0):
+        out.append(('padded-grid-count', f'N={n} bs={bs} buckets={nb} sizes={sizes}: {k} batches, expected {want_k}'))
+      elif k and last != want_last:
+        out.append(('padded-grid-final-size', f'N={n} bs={bs} buckets={nb} sizes={sizes}: last batch has {last} rows, bucket rule gives {want_last}'))
+      if out:
+        break
+    return out
   if kind == 'padded':
     ds = case['ds']
     bad = next((j for j, d in enumerate(ds) if d[0] != ds[0][0] or d[1] != ds[0][1]), None)
@@ -933,6 +1062,11 @@ def _oracle_args(case, obs):
 
 def encode(case, obs):
   kind = case['kind']
+  if kind == 'xproc':
+    return None
+  if kind == 'padgrid':
+    cs = '[' + '; '.join(f'({k}, {last})' for k, last, _ in obs['counts']) + ']%nat'
+    return f'(CPadGrid {case["bs"]}%Z {case["nb"]}%Z {case["split"]}%nat, OPadGrid {cs})'
   if kind in ('padded', 'pbfd'):
     ds = case['ds'] if kind == 'padded' else [[0, 0, s] for s in obs['sorted_sizes']]
     a, b = case['aff']
@@ -977,6 +1111,8 @@ def encode(case, obs):
 
 def nontrivial(case, obs):
   kind = case['kind']
+  if kind in ('padgrid', 'xproc'):
+    return True
   if kind in ('padded', 'pbfd', 'shufbatch', 'srbfd'):
     return bool(obs.get('batches')) or obs.get('err') is not None
   if kind == 'shuffle':
@@ -991,6 +1127,12 @@ def nontrivial(case, obs):
 def describe(case, obs):
   kind = case['kind']
   d = {'kind': kind}
+  if kind == 'padgrid':
+    d['grid_points'] = len(obs['counts'])
+    return d
+  if kind == 'xproc':
+    d['env'] = str(sorted(case['env'].items()))
+    return d
   if kind in ('padded', 'pbfd'):
     sizes = [x[2] for x in case['ds']] if kind == 'padded' else case['sizes']
     bs = case['bs']
@@ -1023,6 +1165,17 @@ def describe(case, obs):
 
 def shrink(case):
   kind = case['kind']
+  if kind == 'xproc':
+    for j in range(len(case['cases'])):
+      if len(case['cases']) > 1:
+        yield {**case, 'cases': case['cases'][:j] + case['cases'][j + 1:]}
+    return
+  if kind == 'padgrid':
+    for k, lo in (('maxn', 0), ('bs', 1), ('nb', 1), ('split', 0)):
+      for c in sorted({lo, case[k] // 2, case[k] - 1}):
+        if lo <= c < case[k]:
+          yield {**case, k: c}
+    return
   if 'ds' in case:
     ds = case['ds']
     for j in range(len(ds)):
@@ -1045,3 +1198,7 @@ def shrink(case):
           yield {**case, k: c}
   if case.get('aff') not in (None, [1, 0]):
     yield {**case, 'aff': [1, 0]}
+
+
+if __name__ == '__main__':
+  _sub_main()
